@@ -526,6 +526,22 @@ class EffectClient(Client):
                             'sendall', 'send', 'close', 'put', 'put_nowait', 'start', 'stop', 'restart', 'append', 'appendleft', 'connect', 'shutdown')
                         for n_ in ast.walk(pm_.node)):
                     return [s]
+            # a method of the provider (introduced after the inventory) that gives the transport up on the machine's behalf --
+            # closes the socket, releases the attribute, queues an event -- and does nothing else the model keeps track of:
+            # its effects are the action's effects at that point
+            if ch_ and ch_[:2] == ('self', 'provider') and len(ch_) == 3:
+                pm_ = self.model.provider_cls.find_method(ch_[2])
+                summ_ = _provider_callback_effects(pm_) if pm_ is not None and self.repo.is_helper(pm_) else None
+                if summ_ is not None:
+                    effs_, tests_socket_ = summ_
+                    if s.sock == 'absent' and tests_socket_:
+                        return [s]
+                    s2_ = s
+                    for e_ in effs_:
+                        s2_ = s2_.add(e_)
+                    if ('unset',) in effs_:
+                        s2_ = s2_.with_(sock='absent')
+                    return [s2_]
             raise AnalysisError('%s: unmodelled call %s inside state machine action'
                                 % (self.f.loc(call), norm(call)))
         # plain function / constructor call: no effect on the protocol machine
@@ -937,6 +953,59 @@ def cell_context(evt: int, sta: int):
         prim = frozenset([TOP])
     sock = 'absent' if (evt == 17 or (evt == 1 and sta == 1)) else 'present'
     return prim, sock
+
+
+def _provider_callback_effects(pm_):
+    """(effects, does it return early when there is no socket?) of a provider method that only closes / releases the transport and
+    queues events; None when it does anything else the machine model tracks"""
+    effs = []
+    aliases = set()
+    tests_socket = False
+    for n_ in ast.walk(pm_.node):
+        if isinstance(n_, ast.Assign):
+            tg, val = n_.targets[0], n_.value
+            pairs = list(zip(tg.elts, val.elts)) if isinstance(tg, ast.Tuple) and isinstance(val, ast.Tuple) and len(tg.elts) == len(val.elts) \
+                else [(tg, val)]
+            for t_, v_ in pairs:
+                if isinstance(t_, ast.Name) and attr_chain(v_) == ('self', 'dul_socket'):
+                    aliases.add(t_.id)
+    for n_ in ast.walk(pm_.node):
+        if isinstance(n_, ast.Compare) and len(n_.ops) == 1 and isinstance(n_.ops[0], (ast.Is, ast.IsNot)) \
+                and isinstance(n_.comparators[0], ast.Constant) and n_.comparators[0].value is None \
+                and (attr_chain(n_.left) == ('self', 'dul_socket') or isinstance(n_.left, ast.Name) and n_.left.id in aliases):
+            tests_socket = True
+    order = []
+    for n_ in ast.walk(pm_.node):
+        if isinstance(n_, ast.Call) and isinstance(n_.func, ast.Attribute):
+            recv = attr_chain(n_.func.value)
+            a_ = n_.func.attr
+            if a_ == 'close' and (recv == ('self', 'dul_socket') or (recv and len(recv) == 1 and recv[0] in aliases)):
+                order.append((n_.lineno, n_.col_offset, ('close',), recv != ('self', 'dul_socket')))
+            elif a_ == 'append' and recv == ('self', 'event') and n_.args:
+                order.append((n_.lineno, n_.col_offset, ('queue', norm(n_.args[0])), False))
+            elif a_ in ('sendall', 'send', 'put', 'put_nowait', 'start', 'stop', 'restart', 'connect', 'shutdown', 'appendleft', 'clear', 'pop'):
+                return None
+        elif isinstance(n_, (ast.Assign, ast.AugAssign, ast.Delete)):
+            tgs = n_.targets if isinstance(n_, (ast.Assign, ast.Delete)) else [n_.target]
+            flat = []
+            for t_ in tgs:
+                flat += list(t_.elts) if isinstance(t_, ast.Tuple) else [t_]
+            for t_ in flat:
+                ch = attr_chain(t_) if isinstance(t_, ast.Attribute) else None
+                if ch == ('self', 'dul_socket'):
+                    order.append((n_.lineno, n_.col_offset, ('unset',), False))
+                elif ch and ch[0] == 'self' and ch[1] in ('timer', 'to_service_user', 'from_service_user', 'event', 'state_machine', 'primitive'):
+                    return None
+    order.sort()
+    effs = [e_ for _l, _c, e_, _a in order]
+    # closing through a local bound to the socket before the attribute was released is closing the socket: for the order rule the
+    # close comes first
+    if ('close',) in effs and ('unset',) in effs and effs.index(('unset',)) < effs.index(('close',)) and any(al for _l, _c, e_, al in order if e_ == ('close',)):
+        effs.remove(('close',))
+        effs.insert(effs.index(('unset',)), ('close',))
+    if not effs:
+        return None
+    return tuple(effs), tests_socket
 
 
 def summarize_outcome(o: ActionOutcome):
